@@ -20,6 +20,9 @@ REQUIRED_QUICK = [
     "tcp_gauge_samples_io_thread", "udp_gauge_samples_io_thread", "tcp_final_checks", "udp_final_checks",
     "il_tcp_stop_with_open_sessions", "il_tcp_connect_during_stop_accepted",
     "tcp_unobserve_actor_true", "tcp_race_attempts_close_vs_timer",
+    # read-mode script: Sync with undrained peer bytes, setReadMode(Async) after the close was observed, live flush
+    "tcp_readmode_sync_sessions", "tcp_readmode_flush_after_close_calls", "tcp_readmode_partial_drains", "tcp_readmode_flush_data_events",
+    "udp_readmode_sync_sessions", "udp_readmode_flush_after_close_calls",
 ]
 
 # plan kinds / ends as numbered in harness/c02_actors.hpp (used to attribute a close class to the planned origin)
